@@ -80,6 +80,26 @@ def check(run):
             ok += 1
             why = oracle(c, o)
             if why: violations.append({'class': 'acknowledged-write-not-visible', 'probe': 'durability', 'input': c, 'output': o, 'why': why})
+        # the visibility clause on a multi-voter leader: a linearizable read that arrives after a write was committed (hence
+        # possibly acknowledged by an earlier leader) may be answered only once the state machine has applied up to the
+        # commit index the read saw - also when acknowledgements keep arriving while the state machine lags behind
+        # (probe lease_cluster: real leader + real followers, the case sets what the state machine reports as applied)
+        from props import lease_common as lc
+        lcases, _ = lc.gen_cases(run, False, 'c10vis')
+        lcases = [c for c in lcases if any(e[0] == 6 for e in c[2])][:140] + [lc.W_APPLY_LAG]
+        louts = lc.probe_cluster(lcases)
+        lok = 0
+        for c, o in zip(lcases, louts):
+            if isinstance(o, str): broken.append(('harness', 'lease_cluster probe error', o[:300])); continue
+            lok += 1
+            for e in lc.timeline(c, o):
+                bad = [j for j in e['served'] if e['kinds'][j] == 6 and e['applied'] < e['commit_at_arrival'][j]]
+                if bad:
+                    j = bad[0]
+                    violations.append({'class': 'committed-write-invisible-to-later-linearizable-read', 'probe': 'lease_cluster', 'input': c, 'output': o,
+                                       'why': 'linearizable read %d arrived when the commit index was %d and was answered by event %s while the state machine had applied only %d' % (j, e['commit_at_arrival'][j], [e['k'], e['arg']], e['applied'])})
+                    break
+        dist['leader-with-apply-lag-cases(lease_cluster)'] = lok
         run.add_cases(ok, len({json.dumps(c) for c in cases}), [{'engine': cases[0][0], 'steps': cases[0][1][:8]}], dist,
                       'seeded single-client histories (put / delete / CAS incl. absent-expected and empty values / linearizable reads / graceful stop+restart), both storage engines; every history ends with a restart and a read of every key')
     except Broken as b:
@@ -91,6 +111,15 @@ def replay(path):
     if r.get('kind') != 'counterexample':
         print('broken obligation:', [b['name'] for b in r.get('broken', [])]); return 1
     core.harness_build()
+    if r.get('probe') == 'lease_cluster':
+        from props import lease_common as lc
+        c = r['input']; o = lc.probe_cluster([c])[0]; bad = 0
+        for e in lc.timeline(c, o):
+            for j in e['served']:
+                if e['kinds'][j] == 6 and e['applied'] < e['commit_at_arrival'][j]:
+                    print('VIOLATES: linearizable read %d answered by event %s with applied %d < commit at arrival %d' % (j, [e['k'], e['arg']], e['applied'], e['commit_at_arrival'][j])); bad = 1
+        if not bad: print('ok')
+        return bad
     out = core.probe('durability', [r['input']], timeout=600)[0]
     why = oracle(r['input'], out); print('implementation output:', json.dumps(out)); print('VIOLATES: ' + why if why else 'ok'); return 1 if why else 0
 
